@@ -37,6 +37,21 @@ var TamperKinds = []string{
 	"nodata-for-existing", // answer NODATA (with a genuine but non-matching proof) for a present type
 }
 
+// DenialKinds are the C02 tamperings: every record they add is a genuine, correctly
+// signed NSEC/NSEC3 of some zone of the world — only the selection is wrong.
+var DenialKinds = []string{
+	"denial-other-interval", // each NSEC/NSEC3 replaced by another record of the same chain
+	"denial-subset",         // only the first denial record is kept
+	"denial-dup-reorder",    // records duplicated and reversed (still a valid proof)
+	"nx-for-existing",       // NXDOMAIN + genuine records of the chain for a name that exists
+	"nodata-for-existing",   // NODATA + genuine non-matching record for a type that exists
+	"nodata-to-nx",          // a proven NODATA relabelled NXDOMAIN
+	"nx-to-nodata",          // a proven NXDOMAIN relabelled NOERROR
+	"nods-for-secure",       // referral: DS replaced by a genuine denial record of another interval
+	"foreign-denial",        // denial records of a sibling/child zone
+	"forge-unsigned",        // answer data changed and everything DNSSEC stripped (pairs with nods-for-secure)
+}
+
 // Invalidating reports whether a kind makes the authenticated content of the targeted
 // step unverifiable (as opposed to padding or hints a validator may legitimately drop).
 func Invalidating(kind string) bool {
@@ -340,6 +355,106 @@ func Apply(kind string, a *Answer, attacker, other *Zone) (*dns.Msg, bool) {
 			m.Ns = append(m.Ns, withSig(z, z.nsecAt(0))...)
 		}
 		changed = true
+	case "denial-other-interval", "denial-subset", "denial-dup-reorder":
+		if z == nil || !z.Signed {
+			return nil, false
+		}
+		var keep, denial []dns.RR
+		for _, r := range m.Ns {
+			t := r.Header().Rrtype
+			if t == dns.TypeNSEC || t == dns.TypeNSEC3 {
+				denial = append(denial, r)
+				continue
+			}
+			if sg, ok := r.(*dns.RRSIG); ok && (sg.TypeCovered == dns.TypeNSEC || sg.TypeCovered == dns.TypeNSEC3) {
+				continue
+			}
+			keep = append(keep, r)
+		}
+		if len(denial) == 0 {
+			return nil, false
+		}
+		var repl []dns.RR
+		switch kind {
+		case "denial-other-interval":
+			for i := range denial {
+				if z.NSEC3 {
+					n := len(z.nsec3Chain())
+					repl = append(repl, withSig(z, z.nsec3RR((i*2+1)%n))...)
+				} else {
+					n := len(z.nsecChain())
+					repl = append(repl, withSig(z, z.nsecAt((i*2+1)%n))...)
+				}
+			}
+		case "denial-subset":
+			if len(denial) < 2 {
+				return nil, false
+			}
+			repl = withSig(z, denial[0])
+		case "denial-dup-reorder":
+			for i := len(denial) - 1; i >= 0; i-- {
+				repl = append(repl, withSig(z, denial[i])...)
+				repl = append(repl, withSig(z, denial[i])...)
+			}
+		}
+		m.Ns = append(keep, repl...)
+		changed = true
+	case "nx-for-existing":
+		if a.Kind != "answer" || z == nil || !z.Signed {
+			return nil, false
+		}
+		m.Answer, m.Ns = nil, nil
+		m.Rcode = dns.RcodeNameError
+		soa := dns.Copy(z.soa()[0])
+		m.Ns = append(m.Ns, soa)
+		m.Ns = append(m.Ns, z.sigsFor([]dns.RR{soa})...)
+		if z.NSEC3 {
+			n := len(z.nsec3Chain())
+			for i := 0; i < 3 && i < n; i++ {
+				m.Ns = append(m.Ns, withSig(z, z.nsec3RR(i))...)
+			}
+		} else {
+			n := len(z.nsecChain())
+			for i := 0; i < 2 && i < n; i++ {
+				m.Ns = append(m.Ns, withSig(z, z.nsecAt(i))...)
+			}
+		}
+		changed = true
+	case "nodata-to-nx":
+		if a.Kind != "nodata" {
+			return nil, false
+		}
+		m.Rcode = dns.RcodeNameError
+		changed = true
+	case "nods-for-secure":
+		if a.Kind != "referral" || z == nil || !z.Signed {
+			return nil, false
+		}
+		hadDS := false
+		m.Ns = mapSection(m.Ns, func(r dns.RR) dns.RR {
+			if r.Header().Rrtype == dns.TypeDS || (isSig(r) && r.(*dns.RRSIG).TypeCovered == dns.TypeDS) {
+				hadDS = true
+				return nil
+			}
+			return r
+		})
+		if !hadDS {
+			return nil, false
+		}
+		if z.NSEC3 {
+			m.Ns = append(m.Ns, withSig(z, z.nsec3RR(0))...)
+			m.Ns = append(m.Ns, withSig(z, z.nsec3RR(len(z.nsec3Chain())/2))...)
+		} else {
+			m.Ns = append(m.Ns, withSig(z, z.nsecAt(0))...)
+			m.Ns = append(m.Ns, withSig(z, z.nsecAt(len(z.nsecChain())/2))...)
+		}
+		changed = true
+	case "forge-unsigned":
+		forged, ok := Apply("flip-rdata", a, attacker, other)
+		if !ok {
+			return nil, false
+		}
+		return Apply("strip", &Answer{Zone: a.Zone, Msg: forged, Kind: a.Kind, Child: a.Child}, attacker, other)
 	default:
 		return nil, false
 	}
